@@ -64,12 +64,33 @@ def check_tree(j, meta):
     return f
 
 
+def _scribble(t):
+    """mutate a parse result in place, deeply"""
+    t.metadata['__scribble'] = 'x'
+    stack = [t.node]
+    while stack:
+        var, branches = stack.pop()
+        for r, x in branches:
+            if not interp.is_atom(x):
+                stack.append(x)
+        branches.reverse()
+        branches.append((':scribble', 'z'))
+
+
 def check_text(s, multi):
     f = []
     try:
         ts = list(penman.iterparse(s)) if multi else [penman.parse(s)]
     except DecodeError:
         return []          # not an accepted input: nothing to assert here (C07 decides acceptance)
+    # a parse result belongs to the caller: scribbling on it must not change what the next parse of the same text returns
+    snap = [(interp.to_json(t.node), dict(t.metadata)) for t in ts]
+    for t in (list(penman.iterparse(s)) if multi else [penman.parse(s)]):
+        _scribble(t)
+    again = [(interp.to_json(t.node), dict(t.metadata)) for t in (list(penman.iterparse(s)) if multi else [penman.parse(s)])]
+    if again != snap:
+        f.append(('parse-result-shared-with-later-parse', '%s: %s then %s' % (short(s), short(snap, 200), short(again, 200))))
+        return f
     for t in ts:
         for indent, compact in ([-1, False], [None, False], [2, True]):
             out = penman.format(t, indent=indent, compact=compact)
